@@ -182,12 +182,17 @@ func (fc *FnCtx) havocAll() {
 	for k := range st.sorts {
 		fc.noteWrite(k)
 	}
+	na := fc.vc.fresh("H.alloc", "Int")
+	st.heap["alloc"] = na
+	fc.vc.assume(st.reach, "(>= "+na+" "+a+")")
 	ks := sortedKeys(st.sorts)
 	for _, k := range ks {
-		st.heap[k] = fc.vc.fresh("H."+k, st.sorts[k])
+		if k == "alloc" {
+			continue
+		}
+		fc.havocComp(k, st.sorts[k], na)
 	}
 	st.epoch = fc.vc.nfresh
-	fc.vc.assume(st.reach, "(>= "+st.heap["alloc"]+" "+a+")")
 }
 
 func (fc *FnCtx) inlinable(f *ssa.Function) bool {
@@ -587,18 +592,16 @@ func (fc *FnCtx) applyModifies(con *Contract, se *SpecEnv, pre *State) error {
 		return fmt.Errorf("%s: modifies of %s: %v", con.Pos, con.Name, err)
 	}
 	frontier := fc.alloc()
-	for _, mt := range targets {
-		oldT := fc.getComp(mt.comp, mt.sort)
-		newT := fc.vc.fresh("H."+mt.comp, mt.sort)
-		fc.noteWrite(mt.comp)
-		fc.cur.sorts[mt.comp] = mt.sort
-		fc.cur.heap[mt.comp] = newT
-		fc.vc.assume(fc.cur.reach, frameFormula(fc.vc, oldT, newT, frontier, mt))
-	}
 	// the callee may allocate
 	na := fc.vc.fresh("H.alloc", "Int")
 	fc.vc.assume(fc.cur.reach, "(>= "+na+" "+frontier+")")
 	fc.cur.heap["alloc"] = na
+	for _, mt := range targets {
+		oldT := fc.getComp(mt.comp, mt.sort)
+		fc.noteWrite(mt.comp)
+		newT := fc.havocComp(mt.comp, mt.sort, na)
+		fc.vc.assume(fc.cur.reach, frameFormula(fc.vc, oldT, newT, frontier, mt))
+	}
 	return nil
 }
 
@@ -674,10 +677,33 @@ func (fc *FnCtx) addrMods(li *loopInfo, addr ssa.Value) {
 	}
 }
 
+// allocRoot returns the Alloc an address expression is rooted in, if any.
+func allocRoot(addr ssa.Value) *ssa.Alloc {
+	for {
+		switch a := addr.(type) {
+		case *ssa.Alloc:
+			return a
+		case *ssa.FieldAddr:
+			addr = a.X
+		case *ssa.IndexAddr:
+			if _, ok := a.X.Type().Underlying().(*types.Pointer); ok {
+				addr = a.X
+			} else {
+				return nil
+			}
+		default:
+			return nil
+		}
+	}
+}
+
 func (fc *FnCtx) instrMods(ins ssa.Instruction, li *loopInfo, depth int) {
 	switch x := ins.(type) {
 	case *ssa.Store:
 		fc.addrMods(li, x.Addr)
+		if a := allocRoot(x.Addr); a != nil && depth == 0 && !li.blocks[a.Block()] {
+			li.localAllocs = append(li.localAllocs, a)
+		}
 	case *ssa.Alloc:
 		t := x.Type().(*types.Pointer).Elem()
 		switch u := t.Underlying().(type) {
@@ -924,6 +950,7 @@ func (fc *FnCtx) loopInvariants(li *loopInfo, st *State, phiVals map[*ssa.Phi]Va
 	}
 	se := fc.specEnv(fc.topCon().PkgPath, st, fc.entry)
 	se.vars = fc.nameEnvAt(li, phiVals)
+	se.loop = li
 	for k, v := range fc.letVals {
 		if _, ok := se.vars[k]; !ok {
 			se.vars[k] = v
@@ -992,6 +1019,26 @@ func (fc *FnCtx) enterLoop(li *loopInfo, in *State) error {
 			li.modRefs[t.comp] = append(li.modRefs[t.comp], t.refs...)
 		}
 	}
+	// function-private memory (address-taken locals allocated before the loop) written by the body
+	for _, a := range li.localAllocs {
+		av, ok := fc.env[a]
+		if !ok {
+			continue
+		}
+		t := a.Type().(*types.Pointer).Elem()
+		switch u := t.Underlying().(type) {
+		case *types.Struct:
+			for _, f := range fc.vc.fieldsOf(t) {
+				c := fieldComp(t, f.name)
+				li.modRefs[c] = append(li.modRefs[c], av.T)
+			}
+		case *types.Array:
+			li.modRefs[elemComp(u.Elem())] = append(li.modRefs[elemComp(u.Elem())], av.T)
+			li.modRefs[boxComp(t)] = append(li.modRefs[boxComp(t)], av.T)
+		default:
+			li.modRefs[boxComp(t)] = append(li.modRefs[boxComp(t)], av.T)
+		}
+	}
 	// havoc
 	st := in.clone()
 	fc.cur = st
@@ -999,21 +1046,20 @@ func (fc *FnCtx) enterLoop(li *loopInfo, in *State) error {
 		fc.vc.warn("%s: loop %d calls code without contract: all heap state havocked at the loop head", fc.fn.Name(), li.ordinal)
 		fc.havocAll()
 	} else {
+		na := fc.vc.fresh("H.alloc", "Int")
+		fc.vc.assume(st.reach, "(>= "+na+" "+li.inAlloc+")")
+		st.heap["alloc"] = na
 		for _, comp := range sortedKeys(li.mods) {
 			srt, ok := st.sorts[comp]
 			if !ok {
-				continue // never accessed before the loop; it will be created lazily at the base (entry) version
+				continue // never accessed anywhere in this function
 			}
 			oldT := fc.getComp(comp, srt)
-			newT := fc.vc.fresh("H."+comp, srt)
-			st.heap[comp] = newT
+			newT := fc.havocComp(comp, srt, na)
 			if strings.HasPrefix(srt, "(Array Int ") && !modAllComps[comp] {
 				fc.vc.assume(st.reach, frameFormula(fc.vc, oldT, newT, li.inAlloc, modTarget{comp: comp, refs: li.modRefs[comp]}))
 			}
 		}
-		na := fc.vc.fresh("H.alloc", "Int")
-		fc.vc.assume(st.reach, "(>= "+na+" "+li.inAlloc+")")
-		st.heap["alloc"] = na
 	}
 	// phis become fresh symbols
 	vals := map[*ssa.Phi]Val{}
